@@ -600,6 +600,32 @@ func (e *Engine) FullQueryCheck(tx *Tx, pageSizes []uint64) {
 			}
 		}
 	}
+	// domains outside the usual handful; a shorter hex spelling of a registered padded token names that token (the query pads)
+	for _, d := range []uint32{6, 7, 8, 9, 10, 11, 12, 13, 15, 16, 17, 31, 32, 33, 63, 64, 127, 128, 255, 256, 65535, 65536, 1 << 31} {
+		var r ct.QueryRemoteTokenMessengerResponse
+		err := c.Query("RemoteTokenMessenger", &ct.QueryRemoteTokenMessengerRequest{DomainId: d}, &r)
+		w, has := m.Messengers[d]
+		rc.Cov.Assert("C19.single.RemoteTokenMessenger")
+		if (err == nil) != has || (has && (!bytes.Equal(r.RemoteTokenMessenger.Address, w) || r.RemoteTokenMessenger.DomainId != d)) {
+			e.viol([]string{"C19"}, "query-tap/single", "single:RemoteTokenMessenger", fmt.Sprintf("RemoteTokenMessenger(%d) err=%v resp=%+v model=%x/%v", d, err, r.RemoteTokenMessenger, w, has), e.caseOf(tx, ""))
+		}
+	}
+	np := 0
+	for k := range m.Pairs {
+		if len(k.Token) != 32 || !bytes.Equal([]byte(k.Token[:12]), make([]byte, 12)) || np > 6 {
+			continue
+		}
+		np++
+		bare := []byte(k.Token[12:])
+		var pr ct.QueryGetTokenPairResponse
+		err := c.Query("TokenPair", &ct.QueryGetTokenPairRequest{RemoteDomain: k.Domain, RemoteToken: "0x" + hex.EncodeToString(bare)}, &pr)
+		// the query left-pads a shorter hex string to 32 bytes (types.RemoteTokenPadded): it names the padded entry
+		w, has := m.Pairs[k]
+		rc.Cov.Assert("C19.single.TokenPair.bare-spelling")
+		if (err == nil) != has || (has && (pr.Pair.LocalToken != w || !bytes.Equal(pr.Pair.RemoteToken, []byte(k.Token)))) {
+			e.viol([]string{"C19"}, "query-tap/single", "single:TokenPair:bare-spelling", fmt.Sprintf("TokenPair(%d,0x%x) err=%v resp=%+v model=%q/%v", k.Domain, bare, err, pr.Pair, w, has), e.caseOf(tx, ""))
+		}
+	}
 	// used nonces: every model entry + twins
 	n := 0
 	for k := range m.Used {
